@@ -114,6 +114,8 @@ Proof.
       (split; [reflexivity|]; exists []; rewrite app_nil_r; split; reflexivity).
   - destruct (pend s) as [p|]; [|discriminate]. destruct (ploc p) as [| |v]; try discriminate.
     destruct v; inversion H; subst; cbn; (split; [reflexivity|]; exists []; rewrite app_nil_r; split; reflexivity).
+  - destruct (pend s); [discriminate|]. destruct (uq s); [|discriminate]. inversion H; subst.
+    split; [reflexivity|]. exists []. rewrite app_nil_r. split; reflexivity.
 Qed.
 
 (* ---- one step preserves the invariant and never yields OutOfOrder ----------------------- *)
@@ -262,6 +264,10 @@ Proof.
     destruct pd as [p|]; [|discriminate]. destruct p as [pr ps pl pi]. nm.
     destruct pl as [| |v]; try discriminate. destruct v; try discriminate.
     destruct (Ip _ eq_refl) as (_ & Hoo & _). nm. congruence.
+  - (* FlushRet *)
+    destruct pd; [discriminate|]. destruct q; [|discriminate].
+    injection H as Hs' Hov; subst s' ov. split; [|congruence].
+    constructor; nm; assumption.
 Qed.
 
 (* ---- whole runs --------------------------------------------------------------------------- *)
